@@ -10,6 +10,16 @@
  */
 #include <stddef.h>
 #include <stdint.h>
+/*
+ * DFCC (with --apply-loop-contracts) tracks a local that is assigned inside an un-contracted loop only when it is
+ * address-taken ("dirty").  Every call instance then costs one addressed object in symex, so groups that do not
+ * apply loop contracts and make hundreds of calls may build with -DVERIF_NO_DIRTY.
+ */
+#ifdef VERIF_NO_DIRTY
+#define VERIF_DIRTY(v) do {} while (0)
+#else
+#define VERIF_DIRTY(v) (void)&(v)
+#endif
 #ifndef VERIF_STRMAX
 #define VERIF_STRMAX 72
 #endif
@@ -30,7 +40,7 @@ size_t
 M(strlen)(const char * s)
 {
 	size_t i;
-	(void)&i;	/* address-taken: DFCC tracks only 'dirty' locals assigned inside un-contracted loops */
+	VERIF_DIRTY(i);
 
 	for (i = 0; i < VERIF_STRMAX; i++)
 		if (s[i] == '\0')
@@ -43,7 +53,7 @@ char *
 M(strchr)(const char * s, int c)
 {
 	size_t i;
-	(void)&i;	/* address-taken: DFCC tracks only 'dirty' locals assigned inside un-contracted loops */
+	VERIF_DIRTY(i);
 
 	for (i = 0; i < VERIF_STRMAX; i++) {
 		if (s[i] == (char)c)
@@ -59,9 +69,9 @@ char *
 M(strrchr)(const char * s, int c)
 {
 	size_t i;
-	(void)&i;	/* address-taken: DFCC tracks only 'dirty' locals assigned inside un-contracted loops */
+	VERIF_DIRTY(i);
 	const char * r = NULL;
-	(void)&r;
+	VERIF_DIRTY(r);
 
 	for (i = 0; i < VERIF_STRMAX; i++) {
 		if (s[i] == (char)c)
@@ -77,7 +87,7 @@ int
 M(strcmp)(const char * a, const char * b)
 {
 	size_t i;
-	(void)&i;	/* address-taken: DFCC tracks only 'dirty' locals assigned inside un-contracted loops */
+	VERIF_DIRTY(i);
 
 	for (i = 0; i < VERIF_STRMAX; i++) {
 		unsigned char x = (unsigned char)a[i], y = (unsigned char)b[i];
@@ -94,7 +104,7 @@ int
 M(strncmp)(const char * a, const char * b, size_t n)
 {
 	size_t i;
-	(void)&i;	/* address-taken: DFCC tracks only 'dirty' locals assigned inside un-contracted loops */
+	VERIF_DIRTY(i);
 
 	for (i = 0; i < VERIF_STRMAX; i++) {
 		if (i >= n)
@@ -113,7 +123,7 @@ int
 M(memcmp)(const void * a, const void * b, size_t n)
 {
 	size_t i;
-	(void)&i;	/* address-taken: DFCC tracks only 'dirty' locals assigned inside un-contracted loops */
+	VERIF_DIRTY(i);
 	const unsigned char * x = a, * y = b;
 
 	for (i = 0; i < VERIF_STRMAX; i++) {
@@ -130,7 +140,7 @@ void *
 M(memchr)(const void * s, int c, size_t n)
 {
 	size_t i;
-	(void)&i;	/* address-taken: DFCC tracks only 'dirty' locals assigned inside un-contracted loops */
+	VERIF_DIRTY(i);
 	const unsigned char * x = s;
 
 	for (i = 0; i < VERIF_STRMAX; i++) {
@@ -147,7 +157,7 @@ size_t
 M(strspn)(const char * s, const char * accept)
 {
 	size_t i;
-	(void)&i;	/* address-taken: DFCC tracks only 'dirty' locals assigned inside un-contracted loops */
+	VERIF_DIRTY(i);
 
 	for (i = 0; i < VERIF_STRMAX; i++) {
 		if (s[i] == '\0' || M(strchr)(accept, s[i]) == NULL)
@@ -161,7 +171,7 @@ size_t
 M(strcspn)(const char * s, const char * reject)
 {
 	size_t i;
-	(void)&i;	/* address-taken: DFCC tracks only 'dirty' locals assigned inside un-contracted loops */
+	VERIF_DIRTY(i);
 
 	for (i = 0; i < VERIF_STRMAX; i++) {
 		if (s[i] == '\0' || M(strchr)(reject, s[i]) != NULL)
@@ -175,7 +185,7 @@ char *
 M(strstr)(const char * h, const char * n)
 {
 	size_t i, nl = M(strlen)(n);
-	(void)&i;
+	VERIF_DIRTY(i);
 
 	for (i = 0; i < VERIF_STRMAX; i++) {
 		if (M(strncmp)(&h[i], n, nl) == 0)
@@ -191,7 +201,7 @@ char *
 M(stpcpy)(char * dst, const char * src)
 {
 	size_t i;
-	(void)&i;	/* address-taken: DFCC tracks only 'dirty' locals assigned inside un-contracted loops */
+	VERIF_DIRTY(i);
 
 	for (i = 0; i < VERIF_STRMAX; i++) {
 		dst[i] = src[i];
@@ -217,7 +227,7 @@ strdup(const char * s)
 	size_t n = strlen(s);
 	char * r = malloc(n + 1);
 	size_t i;
-	(void)&i;	/* address-taken: DFCC tracks only 'dirty' locals assigned inside un-contracted loops */
+	VERIF_DIRTY(i);
 
 	if (r == NULL)
 		return (NULL);
